@@ -2,7 +2,7 @@
    Statements + `exact` only; proofs in Proofs/C06*.v.  The model (Model/C06.v: save, load,
    pair_notes, sort_notes, tempo_list, adjust_time) is tied to partitura/io/exportmidi.py and
    importmidi.py by the correspondence run by harness/props/c06.py on every check. *)
-From PV Require Import Lib.Base Lib.Round Model.C12 Model.C06 Proofs.C06_lib Proofs.C06 Proofs.C06_pair.
+From PV Require Import Lib.Base Lib.Round Model.C12 Model.C06 Proofs.C06_lib Proofs.C06 Proofs.C06_pair Proofs.C06_save Proofs.C06_merge Proofs.C06_check.
 From Coq Require Import QArith Qabs Sorted Permutation.
 #[local] Open Scope Z_scope.
 
@@ -100,3 +100,100 @@ Theorem ids_sorted_perm : forall l,
   StronglySorted (fun a b => lex4_le (lnote_key a) (lnote_key b)) (sort_notes l).
 Proof. exact ids_sorted_perm_lemma. Qed.
 Print Assumptions ids_sorted_perm.
+
+(* O1  load (save p), tracks not merged: the model of save_performance_midi writes one file track per
+   track number used (save_tracks, increasing), and reading the i-th file track back (delta times ->
+   absolute ticks, message loop, id sort) returns, as a multiset, exactly the notes of the i-th track
+   number with their times replaced by nearest ticks -- pitch, velocity, channel kept -- for EVERY
+   performance (any number of parts, notes in any list order, controls / programs / meta items
+   anywhere) in which velocities are positive, no note ends before it starts, and two notes of one
+   (track, channel, pitch) have disjoint closed tick intervals (notes_ok); no note is lost (its track
+   is one of the file tracks).  Any tie rule, any ppq, mpq. *)
+Theorem save_load_notes : forall rule ppq mpq ps, notes_ok rule ppq mpq ps ->
+  let trs := save_tracks rule ppq mpq ps in
+  let file := save rule ppq mpq false ps in
+  List.length file = List.length trs /\
+  (forall i tr, nth_error trs i = Some tr ->
+     exists t, nth_error file i = Some t /\
+       Permutation (lp_notes (read_track (Z.of_nat i) (undelta 0 t)))
+                   (map (quantised rule ppq mpq) (filter (fun n => pn_track n =? tr) (all_notes ps)))) /\
+  (forall n, In n (all_notes ps) -> In (pn_track n) trs).
+Proof. exact save_load_notes_lemma. Qed.
+Print Assumptions save_load_notes.
+
+(* O1, controls / programs / signatures / meta, tracks not merged: the i-th file track holds, as a
+   multiset of (nearest tick, message), exactly the messages the exporter emits for the i-th track
+   number (emit_parts: every item of every part at its rounded time, the default programs), plus the
+   set_tempo in front of the first track; hence whatever class of messages f the loader selects from
+   it (is_cc, is_pc, is_key, is_time, is_meta) is what was emitted -- nothing dropped, moved, invented *)
+Theorem save_load_items : forall rule ppq mpq ps (f : msg -> bool), f (Tempo mpq) = false ->
+  forall i tr, nth_error (save_tracks rule ppq mpq ps) i = Some tr ->
+    exists t, nth_error (save rule ppq mpq false ps) i = Some t /\
+      Permutation (sel f (undelta 0 t)) (sel f (track_abs tr (emit_parts rule ppq mpq [] ps))).
+Proof. exact save_load_items_lemma. Qed.
+Print Assumptions save_load_items.
+
+(* ... and load_performance_midi's model is that reading, track by track, dropping the tracks without
+   notes, controls and programs *)
+Theorem load_unmerged_parts : forall dmpq tracks,
+  fst (load dmpq false tracks)
+  = filter nonempty_part (map (fun x => read_track (fst x) (snd x)) (number_from 0 (map (undelta 0) tracks))).
+Proof. exact load_unmerged_parts_lemma. Qed.
+Print Assumptions load_unmerged_parts.
+
+(* notes_ok is satisfiable by a polyphonic two-part performance; what the file gives back *)
+Example save_load_notes_example :
+  notes_ok 0 480 500000 ex_ps /\
+  save_tracks 0 480 500000 ex_ps = [0; 1] /\
+  map (fun t => pair_notes [] (undelta 0 t)) (save 0 480 500000 false ex_ps)
+  = [[mkLN 60 64 0 0 480; mkLN 60 30 0 720 959; mkLN 60 5 0 960 960; mkLN 60 70 1 240 1920]; [mkLN 60 90 0 96 672]].
+Proof. exact save_load_notes_example_lemma. Qed.
+Print Assumptions save_load_notes_example.
+
+(* O1  load (save p) with tracks merged.  mido.merge_tracks (absolute ticks, stable sort, deltas) is
+   part of the model on both sides: save merges when merge_tracks_save is set and there are several
+   tracks, load merges when merge_tracks is set. *)
+Theorem save_merge_shape : forall rule ppq mpq ps,
+  save rule ppq mpq true ps
+  = if 1 <? Z.of_nat (List.length (save rule ppq mpq false ps))
+    then [merge_tracks (save rule ppq mpq false ps)] else save rule ppq mpq false ps.
+Proof. exact save_merge_shape_lemma. Qed.
+Print Assumptions save_merge_shape.
+
+Theorem load_merged_parts : forall dmpq tracks,
+  fst (load dmpq true tracks) = filter nonempty_part [read_track 0 (undelta 0 (merge_tracks tracks))].
+Proof. exact load_merged_parts_lemma. Qed.
+Print Assumptions load_merged_parts.
+
+(* merged once (on export, the file then read as it is: its single track is merge_tracks of the
+   tracks; or on import of a file saved without merging): the single part has, as a multiset, the
+   quantised notes of ALL tracks -- for every performance in which two notes of one (channel, pitch)
+   have disjoint closed tick intervals whatever their tracks (notes_ok_merged) *)
+Theorem save_load_notes_merged : forall rule ppq mpq ps, notes_ok_merged rule ppq mpq ps ->
+  Permutation (lp_notes (read_track 0 (undelta 0 (merge_tracks (save rule ppq mpq false ps)))))
+              (map (quantised rule ppq mpq) (all_notes ps)).
+Proof. exact save_load_notes_merged_lemma. Qed.
+Print Assumptions save_load_notes_merged.
+
+(* merged on export and again on import *)
+Theorem save_load_notes_merged_twice : forall rule ppq mpq ps, notes_ok_merged rule ppq mpq ps ->
+  Permutation (lp_notes (read_track 0 (undelta 0 (merge_tracks [merge_tracks (save rule ppq mpq false ps)]))))
+              (map (quantised rule ppq mpq) (all_notes ps)).
+Proof. exact save_load_notes_merged_twice_lemma. Qed.
+Print Assumptions save_load_notes_merged_twice.
+
+Example save_load_notes_merged_example :
+  notes_ok_merged 0 480 500000 ex_ps_m /\
+  map lp_notes (fst (load 500000 true (save 0 480 500000 true ex_ps_m)))
+  = [[mkLN 60 64 0 0 480; mkLN 60 90 2 96 672; mkLN 60 70 1 240 1920; mkLN 60 30 0 720 959; mkLN 60 5 0 960 960]].
+Proof. exact save_load_notes_merged_example_lemma. Qed.
+Print Assumptions save_load_notes_merged_example.
+
+(* what the note clause of the correspondence checker check_load establishes on every compared file:
+   the implementation's notes, in the order of their ids, are a permutation of the notes the message
+   loop pairs and are ordered by (onset, pitch, offset, channel) *)
+Theorem check_notes_sound : forall paired obs,
+  mset_eqb lnote_eqb (sort_notes paired) obs = true -> sorted_by lnote_leb obs = true ->
+  Permutation obs paired /\ StronglySorted (fun a b => lex4_le (lnote_key a) (lnote_key b)) obs.
+Proof. exact check_notes_sound_lemma. Qed.
+Print Assumptions check_notes_sound.
